@@ -47,7 +47,8 @@ def _alarm(signum, frame):
 def with_timeout(seconds, f, *a, **k):
     """run f under a CPU/wall alarm; raises TimeoutHit."""
     old = signal.signal(signal.SIGALRM, _alarm)
-    signal.setitimer(signal.ITIMER_REAL, seconds)
+    # repeating timer: library code with a bare 'except:' may swallow the first TimeoutHit; keep firing until it propagates
+    signal.setitimer(signal.ITIMER_REAL, seconds, 0.5)
     try:
         return f(*a, **k)
     finally:
